@@ -139,6 +139,10 @@ class Run:
                     super().__init__(when)
                     self.eid, self.dur, self.sched = eid, dur, sched
 
+                def __len__(self):
+                    # an event type with a length (a batch of items): some are empty, none is judged by that
+                    return 0 if self.eid % 7 == 3 else 1
+
             # several sources may belong to one producer (the channels of one websocket connection): ordering is
             # still a per-source matter
             shared = event.Producer() if sc.get("shared_producer", len(sc["pushes"]) % 3 == 0) else None
@@ -208,6 +212,9 @@ class Run:
 
             def mk_idle(k):
                 async def idle():
+                    if ACTIVE["run"] is not run:
+                        LEAKED.append(f"idle handler {k} of an earlier dispatcher was run by another dispatcher")
+                        return
                     run.idle_starts.append((vt(), k, run.inflight))
                     if sc["idle_dur"]:
                         await asyncio.sleep(sc["idle_dur"])
@@ -385,8 +392,18 @@ class Run:
         return out
 
 
+ACTIVE: Dict[str, Any] = {"run": None}
+LEAKED: List[str] = []
+
+
 def evaluate(sc: Dict[str, Any], res: ShardResult) -> Run:
-    run = Run(sc).execute()
+    run = Run(sc)
+    ACTIVE["run"] = run
+    del LEAKED[:]
+    run.execute()
+    if LEAKED:
+        res.violate(Violation("C15", "idle_handler_of_another_dispatcher_ran",
+                              f"{len(LEAKED)} calls: {LEAKED[0]} (dispatchers of one process share nothing)", scenario=sc))
     res.evaluations += 1
     res.count("trace_rows", len(run.rows))
     res.count("events_pushed", len(run.pushed))
